@@ -158,9 +158,29 @@ class Translator:
             lemma_specs.append((lem.name, vs, body, trig))
         for i, (vs, body, trig) in enumerate(local_lemmas):
             lemma_specs.append(('local%d' % i, vs, body, trig or self.auto_triggers(vs, body)))
+        rank_decls = {d.name(): (sn, d) for sn, d in getattr(self.U, 'rank', {}).items()}
+        ranked = set()
         for rnd in range(fuel + 1):
             terms = subterms(all_forms)
             new = []
+            # 0. rank axioms (only when a rank term occurs)
+            if any(z3.is_app(t) and t.decl().name() in rank_decls and t.num_args() == 1 for t in terms.values()):
+                for t in terms.values():
+                    if not z3.is_app(t) or t.get_id() in ranked:
+                        continue
+                    if t.decl().name() in rank_decls and t.num_args() == 1 and t.decl().eq(rank_decls[t.decl().name()][1]):
+                        ranked.add(t.get_id())
+                        new.append(t >= 0)
+                    elif t.decl().kind() == z3.Z3_OP_DT_ACCESSOR:
+                        y = t.arg(0)
+                        sy, st = self.U.sort_name(y.sort()), self.U.sort_name(t.sort())
+                        if sy in self.U.rank and st in self.U.rank:
+                            ranked.add(t.get_id())
+                            S = y.sort()
+                            for ci in range(S.num_constructors()):
+                                for j in range(S.constructor(ci).arity()):
+                                    if S.accessor(ci, j).eq(t.decl()):
+                                        new.append(z3.Implies(S.recognizer(ci)(y), self.U.rank[st](t) < self.U.rank[sy](y)))
             # 1. definitions (not in the last round: only lemma instances / axioms there)
             for t in terms.values():
                 if not z3.is_app(t):
